@@ -44,8 +44,10 @@ def _instr(i, vid):
     return None
 
 
-def h_other(i0: int, i1: int, tot: int, g: int, stalls: int, sg: int, first: bool) -> bool:
+def h_other(i0: int, i1: int, tot: int, g: int, stalls: int, sg: int, first: bool, deny: bool) -> bool:
     """
+    deny (only with v0 idle): station s0, base b0 and request r0 belong to fleet f2, v1 is a member of f2 and v0 of f1, so that
+    v0's instruction is refused with an ERROR by the target's enter() (not by the silent "nothing to do" refusal)
     pre: 0 <= i0 <= 7 and 0 <= i1 <= 7
     post: _
     """
@@ -54,9 +56,13 @@ def h_other(i0: int, i1: int, tot: int, g: int, stalls: int, sg: int, first: boo
     a, b = _instr(i0, "v0"), _instr(i1, "v1")
     if a is None or b is None:
         return True
-    specs = (A.VSpec("v0", K0, HOME[K0], plug="LEVEL_2"), A.VSpec("v1", K1, HOME[K1], plug="LEVEL_2"))
+    dn = True if deny else False
+    if dn and K0 != 0:
+        return True  # (a vehicle already using a target that does not admit it is not an INV-state)
+    specs = (A.VSpec("v0", K0, HOME[K0], plug="LEVEL_2", memb=1 if dn else 0), A.VSpec("v1", K1, HOME[K1], plug="LEVEL_2", memb=2 if dn else 0))
     rd = 1 if K0 == 9 else (2 if K1 == 9 else 0)
-    w = A.build_world(specs, tot, g, 0, stalls, sg, r0_disp=rd)
+    tm = 2 if dn else 0
+    w = A.build_world(specs, tot, g, 0, stalls, sg, r0_disp=rd, s0_memb=tm, b0_memb=tm, r0_memb=tm)
     if w is None:
         return True
     sim = w.sim
@@ -67,7 +73,7 @@ def h_other(i0: int, i1: int, tot: int, g: int, stalls: int, sg: int, first: boo
     only_b = apply_instructions(sim, env, (b,))
     a_rejected = I.deq(I.snap_sim(sim), I.snap_sim(only_a))
     b_rejected = I.deq(I.snap_sim(sim), I.snap_sim(only_b))
-    note("other", A.KIND_NAMES[K0], A.KIND_NAMES[K1], "a-rej" if a_rejected else "a-acc", "b-rej" if b_rejected else "b-acc")
+    note("other", A.KIND_NAMES[K0], A.KIND_NAMES[K1], "a-rej" if a_rejected else "a-acc", "b-rej" if b_rejected else "b-acc", "deny" if dn else "open")
     if not I.counts_ok(both, w):
         return False
     if a_rejected and b_rejected:
@@ -120,16 +126,18 @@ class GenM(GenZ):
 
 def h_prec(g1: int, g2: int, g3: int, idle: int, o1: int) -> bool:
     """
-    generator outputs for v0: 0 none, 1 Idle, 2 DispatchTrip(r0), 3 DispatchBase(b0), 4 OutOfService
+    generator outputs for v0: 0 none, 1 Idle, 2 DispatchTrip(r0), 3 DispatchBase(b0), 4 OutOfService, 5 DispatchBase(b1)
+    (two different bases: whichever base the driver itself would choose, one generator output is the same KIND of instruction with
+    another target)
     CASE (rj): 0 nothing / k: generator k is handed back unchanged through StepSimulation.update_instruction_generator before the
     step (what runner_payload_ops.update_instruction_generator does between co-simulation calls): priority must not move
-    pre: 0 <= g1 <= 4 and 0 <= g2 <= 4 and 0 <= g3 <= 4 and 0 <= idle <= 4000 and 0 <= o1 <= 1
+    pre: 0 <= g1 <= 5 and 0 <= g2 <= 5 and 0 <= g3 <= 5 and 0 <= idle <= 4000 and 0 <= o1 <= 1
     post: _
     """
-    table = (None, 0, 1, 5, 7)
+    table = (None, 0, 1, 5, 7, 11)
 
     def mk(i, vid):
-        for k in range(5):
+        for k in range(6):
             if i == k:
                 return None if table[k] is None else A.instruction(table[k], "LEVEL_2", vid)
         return None
@@ -171,11 +179,19 @@ def h_prec(g1: int, g2: int, g3: int, idle: int, o1: int) -> bool:
         # the autonomous driver of an idle vehicle past the time-out sends it to a base: the final word
         if len(mine) != 1 or mine[0]["instruction_type"] != "DispatchBaseInstruction":
             return False
+        # ... and it is the driver's OWN instruction (its target, not just its kind) that took effect
+        own = sim.vehicles["v0"].driver_state.generate_instruction(sim, env, ())
+        if own is None or sim2.applied_instructions.get("v0") != own:
+            return False
+        if getattr(sim2.vehicles["v0"].vehicle_state, "base_id", None) != own.base_id:
+            return False
     elif last is None:
         if len(mine) != 0:
             return False
     else:
         if len(mine) != 1 or mine[0]["instruction_type"] != type(last).__name__:
+            return False
+        if sim2.applied_instructions.get("v0") is not None and sim2.applied_instructions.get("v0") != last:
             return False
     if other is not None:
         if len(theirs) != 1 or theirs[0]["instruction_type"] != "OutOfServiceInstruction":
